@@ -184,6 +184,13 @@ func verifC11Visible(q verifC11Q, authz acl.Authorizer, items []string) []string
 			kn, _, _ := strings.Cut(line, " => ")
 			_, name, _ := strings.Cut(kn, "/")
 			ok = authz.IntentionRead(name, nil) == acl.Allow
+		case q.Topic == "MeshConfig":
+			ok = true // "reading a mesh config entry requires no specific privileges"
+		case q.Topic == "ExportedServices":
+			ok = authz.MeshRead(nil) == acl.Allow
+		case q.Topic == "JWTProvider":
+			// mesh:read, or service:write on any service (sidecar proxies read the providers with their service identity)
+			ok = authz.MeshRead(nil) == acl.Allow || authz.ServiceWriteAny(nil) == acl.Allow
 		default:
 			kn, _, _ := strings.Cut(line, " => ")
 			_, name, _ := strings.Cut(kn, "/")
